@@ -51,7 +51,7 @@ def gen_cases(rng, tier):
                 thr.append(enc(Fraction(rng.randint(-28, 28), 8)))
         cases.append({"pos": [enc(x) for x in pos], "neg": [enc(x) for x in neg],
                       "ep": rng.choice([0, 0, 1, 3, 17]), "en": rng.choice([0, 0, 2, 5]),
-                      "sc": sc, "ec": ec, "thr": thr})
+                      "sc": sc, "ec": ec, "thr": thr, "is_sorted": k % 6 == 0})
     return cases
 
 
@@ -65,6 +65,7 @@ def run_impl(case):
     thr = np.array([fl(t) for t in case["thr"]], dtype=float)
     s = Scores(pos, neg, nb_easy_pos=case["ep"], nb_easy_neg=case["en"], score_class=case["sc"], equal_class=case["ec"])
     cm = s.cm(thr)
+    raw = None
     mats = [[int(v) for v in m.reshape(-1)] for m in cm.matrix]
     rates = {name: [enc(float(v)) for v in np.atleast_1d(getattr(s, name)(thr))]
              for name in ("tpr", "fnr", "tnr", "fpr", "topr", "tonr")}
@@ -74,7 +75,7 @@ def run_impl(case):
     pw_shape = list(pw.shape)
     pw_sum = [[int(v) for v in m.reshape(-1)] for m in pw.sum(axis=0)]
     excl = bool(np.all(pw.sum(axis=(-1, -2)) == 1)) if pw.size else True
-    return {"cm": mats, "rates": rates, "pw_sum": pw_sum, "pw_shape": pw_shape, "pw_exclusive": excl}
+    return {"cm": mats, "rates": rates, "pw_sum": pw_sum, "pw_shape": pw_shape, "pw_exclusive": excl, "cm_is_sorted": raw}
 
 
 def _scores_term(case):
@@ -96,6 +97,7 @@ def coq_term(case, res):
     labels = cq.blist([True] * len(case["pos"]) + [False] * len(case["neg"]))
     xs = cq.qlist([F(x) for x in case["pos"] + case["neg"]])
     ties = f" && list_eqb cmz_eqb (map (Gen.Gen_cm.gen_cm s) {thr}) {exp}" if "Gen_cm" in GEN_AVAILABLE else ""
+    ties += f" && list_eqb cmz_eqb (map (cm_bin s) {thr}) {exp}"
     return (f"(let s := {_scores_term(case)} in list_eqb cmz_eqb (map (cm s) {thr}) {exp}{ties} && "
             f"list_eqb cmz_eqb (map (pointwise_sum {cq.label(case['sc'])} {cq.label(case['ec'])} {labels} {xs}) {thr}) {pw})")
 
